@@ -1,22 +1,23 @@
 """Probe model for C19: writes a run-dependent constant into every array bucket.
 
-value(run, bucket) = 16 * (run + 1) + index(bucket), index: photon 0, charge 1, pixel 2, signal 3, image 4
+value(run, bucket, epoch) = 256 * epoch + 16 * (run + 1) + index(bucket), index: photon 0, charge 1, pixel 2,
+signal 3, image 4; epoch = which simulation of a history on one configuration object (0 for a single one)
 (the same formula is `val` in coq/theories/Model/Outputs.v)."""
 import numpy as np
 
 BUCKETS = ("photon", "charge", "pixel", "signal", "image")
 
 
-def value(run: int, bucket: str) -> int:
-    return 16 * (int(run) + 1) + BUCKETS.index(bucket)
+def value(run: int, bucket: str, epoch: int = 0) -> int:
+    return 256 * int(epoch) + 16 * (int(run) + 1) + BUCKETS.index(bucket)
 
 
-def fill(detector, run=0):
+def fill(detector, run=0, epoch=0):
     geo = detector.geometry
     shape = (geo.row, geo.col)
-    r = int(run)
-    detector.photon.array = np.full(shape, float(value(r, "photon")))
-    detector.charge.add_charge_array(np.full(shape, float(value(r, "charge"))))
-    detector.pixel.array = np.full(shape, float(value(r, "pixel")))
-    detector.signal.array = np.full(shape, float(value(r, "signal")))
-    detector.image.array = np.full(shape, value(r, "image"), dtype=np.uint16)
+    r, e = int(run), int(epoch)
+    detector.photon.array = np.full(shape, float(value(r, "photon", e)))
+    detector.charge.add_charge_array(np.full(shape, float(value(r, "charge", e))))
+    detector.pixel.array = np.full(shape, float(value(r, "pixel", e)))
+    detector.signal.array = np.full(shape, float(value(r, "signal", e)))
+    detector.image.array = np.full(shape, value(r, "image", e), dtype=np.uint16)
